@@ -856,7 +856,53 @@ def check_tetra(case):
               "subset" if start in ("kuhn", "five") and len(case["subset"]) < (6 if start == "kuhn" else 5) else None)
 
 
+# ---- exhaustive sweep over long grids -------------------------------------------------------------------------
+# The number of K-points along one axis is a finite domain: every NKdiv in 1..400 along a drawn axis (block of 25
+# every case enumerates all of them for its drawn axis) must give exactly NKdiv K-points
+# i/NKdiv with weight 1/prod(NKdiv) each (no symmetry), summing to one.
+sweep_st = st.fixed_dictionaries(dict(axis=st.integers(0, 2), other=st.sampled_from([1, 2, 3]),
+                                      fft=st.sampled_from([1, 2, 3])))
+SWEEP_MAX = 400
+
+
+def check_sweep(case):
+    import wannierberri as wb
+    ax = case["axis"]
+    for n in range(1, SWEEP_MAX + 1):      # complete enumeration of the axis length (finite domain)
+        div = [case["other"] if n <= 40 else 1] * 3
+        div[ax] = n
+        grid = wb.Grid(_sweep_system(), NKdiv=np.array(div), NKFFT=case["fft"], use_symmetry=False)
+        K = grid.get_K_list(use_symmetry=False)
+        N = int(np.prod(div))
+        if len(K) != N:
+            raise Violation("sweep:number-of-K-points", f"NKdiv={div}: {len(K)} K-points instead of {N}")
+        tot = sum(k.factor for k in K)
+        if abs(tot - 1) > 1e-9:
+            raise Violation("sweep:total-weight", f"NKdiv={div}: weights sum to {tot!r}")
+        seen = set()
+        for k in K:
+            idx = tuple(int(round(float(x) * d)) for x, d in zip(k.K, div))
+            kk = np.array(idx) / np.array(div)
+            if (np.max(np.abs(np.asarray(k.K) - kk)) > 1e-12 or np.max(np.abs(k.Kp_fullBZ - kk / case["fft"])) > 1e-12
+                    or idx in seen or not all(0 <= i < d for i, d in zip(idx, div))):
+                raise Violation("sweep:K-point-position", f"NKdiv={div}: K-point {k.K} is not a distinct grid point")
+            seen.add(idx)
+    return ok(True, f"axis={ax}", f"other={case['other']}", f"fft={case['fft']}", f"NKdiv=1..{SWEEP_MAX}-exhaustive")
+
+
+_SWEEP_SYS = []
+
+
+def _sweep_system():
+    if not _SWEEP_SYS:
+        m = wbsys.Model(np.diag([1.0, 1.3, 0.8]), np.zeros((1, 3)), np.zeros((1, 3), dtype=int),
+                        {"Ham": np.zeros((1, 1, 1), dtype=complex)})
+        _SWEEP_SYS.append(wbsys.to_system(m))
+    return _SWEEP_SYS[0]
+
+
 SUBS = [
+    Sub("sweep", sweep_st, check_sweep, quick=8, thorough=27, budget_quick=60, budget_thorough=120, per_shard_min=1),
     Sub("history", history_st(), check_history, quick=480, thorough=19200, budget_quick=60, budget_thorough=360),
     Sub("tetra", tetra_case_st(), check_tetra, quick=240, thorough=8000, budget_quick=60, budget_thorough=200),
 ]
